@@ -368,6 +368,9 @@ func (v AudioSamplingRate) String() string {
 // Parse the FLV sampling rate to Hz.
 func (v AudioSamplingRate) ToHz() int {
 	flvSR := []int{5512, 11025, 22050, 44100}
+	if int(v) >= len(flvSR) {
+		return 0
+	}
 	return flvSR[v]
 }
 
